@@ -90,6 +90,23 @@ def enum_fails(t, seed):
         ok, missing = spec.complete(clade_sets)
         if not ok:
             fails.append(f"a binary refinement is never produced: clades {sorted(map(sorted, missing))}")
+    # history: the SAME tree object is edited in place (an inner node is removed, its children move up) and refined again
+    inner = [n for n in tree.traverse("preorder") if not n.is_leaf() and not n.is_root()]
+    if inner and not fails:
+        inner[0].delete()
+
+        def tup(n):
+            return n.name if n.is_leaf() else tuple(tup(c) for c in n.children)
+
+        t2 = tup(tree)
+        outs2 = binarize(tree)
+        outs2 = outs2 if isinstance(outs2, list) else [outs2]
+        spec2 = CL.CladeSpec(leaves, required_clades=CL.clades_of_tuple(t2))
+        cs2 = [frozenset(ete_clade(n) for n in o.traverse() if not n.is_leaf()) for o in outs2]
+        if len(outs2) != CL.double_factorial_count(t2) or len(set(cs2)) != len(cs2):
+            fails.append(f"after removing an inner node in place: {len(outs2)} refinements ({len(set(cs2))} distinct), prod (2k-3)!! = {CL.double_factorial_count(t2)}")
+        elif any(not spec2.is_model(c) for c in cs2) or not spec2.complete(cs2)[0]:
+            fails.append("after removing an inner node in place: the outputs are not exactly the refinements of the edited tree")
     return fails, len(outs)
 
 
